@@ -366,7 +366,7 @@ Section LoadDump.
     load_prim ops p (bs ++ tl) = Good (d, tl).
   Proof.
     destruct tags_ok as [_ [Ta [Tc [Ti _]]]].
-    destruct p as [m t|n tc m tv|n t]; destruct d as [len data|v|]; cbn [wf_prim dump_prim]; try discriminate.
+    destruct p as [m t|n tc m tv|n t|n tc m tv]; destruct d as [len data|v|]; cbn [wf_prim dump_prim]; try discriminate.
     - intros W E. repeat (apply andb_prop in W; destruct W as [W ?]).
       destruct (all_in_spec _ _ _ H) as [Hl Hr].
       assert (Hw : exists w, float_width t = Some w /\ (w = 4 /\ t = F32 \/ w = 8 /\ t = F64)).
@@ -475,7 +475,7 @@ Lemma dump_layers_total ls p : forall gs d, wf_layers ls p gs d = true -> exists
 Proof.
   induction ls as [|l ls IH]; intros gs d W.
   - destruct gs; [|discriminate]. cbn [wf_layers dump_layers] in *.
-    destruct p as [m t|n tc m tv|n t]; destruct d as [len data|v|]; cbn [wf_prim dump_prim] in *; try discriminate; eauto.
+    destruct p as [m t|n tc m tv|n t|n tc m tv]; destruct d as [len data|v|]; cbn [wf_prim dump_prim] in *; try discriminate; eauto.
     destruct t; cbn in W; try discriminate; cbn [float_width]; eauto.
   - destruct gs as [|g gs]; [discriminate|]. cbn [wf_layers dump_layers] in *.
     destruct (kind_of_layers ls p) as [k|]; [|discriminate].
@@ -529,7 +529,7 @@ Section OkLoad.
 
   Lemma ok_load_prim p : ok_reader (load_prim ops p).
   Proof.
-    destruct p as [m t|n tc m tv|n t]; unfold load_prim.
+    destruct p as [m t|n tc m tv|n t|n tc m tv]; unfold load_prim.
     - apply ok_unit_bind; [apply ok_read_hdr|].
       apply ok_bind2 with (r := read_u32) (f := fun w r1 =>
         if negb ((w =? 4) || (w =? 8)) then Bad BadWidth else
@@ -556,6 +556,7 @@ Section OkLoad.
       + apply ok_read_scalars.
       + intros vs. apply ok_ftr_ret.
     - apply ok_unit_bind; [apply ok_read_hdr|]. apply ok_ftr_ret.
+    - apply ok_fail.
   Qed.
 
   Lemma ok_load_cfg l k : ok_reader (load_cfg l k).
